@@ -139,6 +139,19 @@ async def read_parts(reader, api, chunk):
         if part is None:
             break
         if isinstance(part, MultipartReader):
+            if api == "skipnested":
+                # the application is not interested in the nested body: straight on to the next outer part
+                out.append({"nested": None})
+                continue
+            if api == "nested1":
+                # only the first inner part is read, then the application moves on
+                first = await part.next()
+                inner = []
+                if first is not None and not isinstance(first, MultipartReader):
+                    inner.append({"headers": dict(first.headers), "name": first.name, "filename": first.filename,
+                                  "content": bytes(await first.read(decode=True))})
+                out.append({"nested": inner, "partial": True})
+                continue
             inner = await read_parts(part, api, chunk)
             out.append({"nested": inner})
             continue
@@ -168,6 +181,13 @@ async def read_parts(reader, api, chunk):
         elif api == "release":
             await part.release()
             item["content"] = None
+        elif api == "line1":
+            # one line is looked at, then the application moves on to the next part
+            item["first"] = bytes(await part.readline())
+        elif api == "chunk1":
+            item["first"] = bytes(await part.read_chunk(chunk)) if not part.at_eof() else b""
+        elif api in ("skipnested", "nested1"):
+            item["content"] = bytes(await part.read(decode=True))
         out.append(item)
     return out
 
@@ -235,9 +255,18 @@ def compare(part, label, want, got, api, case):
         return
     for i, (w, g) in enumerate(zip(want, parts)):
         if "nested" in w:
+            if g.get("nested") is None:
+                continue
+            if g.get("partial"):
+                compare(part, label + f"/nested{i}", w["nested"][:len(g["nested"])], {"parts": g["nested"]}, "read", case)
+                continue
             compare(part, label + f"/nested{i}", w["nested"], {"parts": g.get("nested", [])}, api, case)
             continue
-        if api in ("read", "chunk") and g.get("content") != w["content"]:
+        if api in ("line1", "chunk1") and not w["enc"] and not w["cenc"]:
+            first = g.get("first") or b""
+            if not w["content"].startswith(first) or (w["content"] and not first):
+                part.violation(f"C19:roundtrip:content-differs:{api}", f"{label} part {i} ({api}): wrote {w['content'][:24]!r}.., first piece read {first[:24]!r}", case)
+        if api in ("read", "chunk", "skipnested", "nested1") and g.get("content") != w["content"]:
             gc = g.get("content") or b""
             part.violation(f"C19:roundtrip:content-differs:{api}", f"{label} part {i} ({api}): wrote {len(w['content'])} bytes {w['content'][:24]!r}.., read {len(gc)} bytes {gc[:24]!r}..", case)
         if api == "line" and not w["enc"] and not w["cenc"] and g.get("raw") != w["content"]:
@@ -318,11 +347,14 @@ def _job_roundtrip(job):
             if spec[0] == "nested":
                 ctype = f"multipart/mixed; boundary={B}"
             part.state(repr(spec))
-            for api, chunk in (("read", 0), ("chunk", 64), ("chunk", 8192), ("line", 0), ("release", 0)):
+            apis = [("read", 0), ("chunk", 64), ("chunk", 8192), ("line", 0), ("release", 0), ("line1", 0), ("chunk1", 16)]
+            if spec[0] == "nested":
+                apis += [("skipnested", 0), ("nested1", 0)]
+            for api, chunk in apis:
                 plain = all(not w.get("enc") and not w.get("cenc") for w in want if "nested" not in w)
                 if api == "line" and not plain:
                     continue
-                for cuts in (cuts_for(body) if api in ("read", "line") or chunk == 64 else [()]):
+                for cuts in (cuts_for(body) if api in ("read", "line") or chunk == 64 else [(), tuple(range(1, len(body)))] if len(body) <= 400 else [()]):
                     got = run_reader(loop, ctype, body, cuts, api, chunk or 8192)
                     part.count("executions")
                     part.count("transitions", len(cuts) + 1)
@@ -390,7 +422,7 @@ def _job_term(job):
         for i in range(len(body)):
             muts.append((("trunc", i), body[:i]))
         for d, m in muts:
-            for api in ("read", "line", "release"):
+            for api in ("read", "line", "release", "line1", "chunk1"):
                 loop = VLoop().hold()
                 try:
                     n = len(m)
